@@ -49,6 +49,8 @@ type VerifC02Perm struct {
 	Service  string
 	Method   string
 	Expected *conformancev1.ClientResponseResult
+	// OtherCodes: the permutation's other_allowed_error_codes
+	OtherCodes []conformancev1.Code
 }
 
 // VerifC02LoadPerms is VerifC02Load returning, for every permutation, what populateExpectedResponses
@@ -70,9 +72,31 @@ func VerifC02LoadPerms(files map[string][]byte, cfgYAML string, mode conformance
 	for _, tc := range lib.allPermutations(clientIsGRPC, serverIsGRPC) {
 		out = append(out, VerifC02Perm{
 			Name: tc.Request.TestName, Codec: tc.Request.Codec, Protocol: tc.Request.Protocol, UseGet: tc.Request.UseGetHttpMethod,
-			Service: tc.Request.GetService(), Method: tc.Request.GetMethod(), Expected: tc.ExpectedResponse,
+			Service: tc.Request.GetService(), Method: tc.Request.GetMethod(), Expected: tc.ExpectedResponse, OtherCodes: tc.OtherAllowedErrorCodes,
 		})
 	}
 	sort.Slice(out, func(i, j int) bool { return out[i].Name < out[j].Name })
 	return out, nil
+}
+
+// VerifC02Assert runs the real testResults.assert on one (definition, client result) pair and reports
+// whether the case was recorded as passed, and the number of discrepancies otherwise.
+func VerifC02Assert(definition *conformancev1.TestCase, actual *conformancev1.ClientResponseResult) (recorded, pass bool, n int) {
+	res := newResults(1, &testTrie{}, &testTrie{}, nil)
+	name := definition.GetRequest().GetTestName()
+	res.assert(name, definition, actual)
+	res.mu.Lock()
+	defer res.mu.Unlock()
+	outcome, ok := res.outcomes[name]
+	if !ok {
+		return false, false, 0
+	}
+	switch failure := outcome.actualFailure.(type) {
+	case nil:
+		return true, true, 0
+	case multiErrors:
+		return true, false, len(failure)
+	default:
+		return true, false, 1
+	}
 }
